@@ -38,6 +38,10 @@ Agnostic / excluded corners
   (on the pinned tree the inner `{% slot %}` then resolves against the receiving component and recurses - that is
   slot resolution, C01's subject); a non-safe content whose first hop has escape_slots_content=False but a later re-pass has True may be
   escaped zero times or once (never twice); `Slot(fn, escaped=True)` built by the user is not generated.
+* histories (B2) re-use only the objects the *user* built (value, callable, un-normalised `Slot`s); a normalised
+  `Slot` captured from `self.input.slots` of an earlier render and handed to a later top-level render keeps the
+  escaping decision of the render that normalised it - that is the 0-or-1 corner above and is not generated. The
+  parent components of a history re-pass through Python `render` only (dynamic / template hops are part B's chains).
 * js/css containing `</script` / `</style` (any case) that would *not* terminate the element (next character
   is not whitespace, '/' or '>'; or it only does so depending on the library's strip() of the content) may be
   refused or emitted; content without such a prefix must be emitted, content that terminates must be refused.
@@ -735,7 +739,7 @@ def _hist_strings(thorough, n):
     0 / 1 / 2-fold escapings differ)"""
     if not thorough:
         return (0,)
-    return tuple(range(len(S_STRINGS))) if n == 2 else (0, 2)
+    return tuple(range(len(S_STRINGS))) if n == 2 else (0,)
 
 
 def gen_histories(thorough):
